@@ -15,4 +15,10 @@ def build(src, tier):
     from . import core_targets as K
     w = K.world_for(src, tier)
     out += [(w, [K.t_start_at(), K.t_dispatch(), K.t_trans_(), K.t_is_in(), K.t_child_state()])]
+    # the documented markers of a step: posts, deferrals, recalls, scribbles
+    from contracts import base_world
+    from contracts import queues as Q
+    wm = base_world(src)
+    Q.install(wm)
+    out += [(wm, I.marker_targets())]
     return out
